@@ -221,14 +221,17 @@ class Unit:
             self.demoted_info.append(dict(file=rel, fn=path, line=s.line_of(s.tok(f['fn_ci'])[2]), body_sha256=sha256(body_text)))
             return
         b = Body(body_text, base_line)
-        if 'R7' in allowed:
-            b.r7_option_combinators()
+        if 'R8' in allowed:
+            b.r8_extend_map()
         if 'R9' in allowed:
             b.r9_filter_count()
+        if 'R7' in allowed:
+            b.r7_option_combinators()
         b.r4_logging()
         b.r2_assert()
         b.r3_panic_closure()
         b.r1_ref_patterns()
+        b.flush()
         used = set(r['rule'].split()[0] for r in b.rewrites)
         if not used <= allowed:
             raise ExtractError('unsupported construct: body of %s now needs rewrite(s) %s which the unit does not allow (allowed: %s)'
@@ -265,14 +268,17 @@ class Unit:
             # one hint lost its anchor: later hints may refer to ghost variables it introduced, so ALL hints of this
             # function are dropped (consistently); the function is then verified from its contract alone.
             b = Body(body_text, base_line)
-            if 'R7' in allowed:
-                b.r7_option_combinators()
+            if 'R8' in allowed:
+                b.r8_extend_map()
             if 'R9' in allowed:
                 b.r9_filter_count()
+            if 'R7' in allowed:
+                b.r7_option_combinators()
             b.r4_logging()
             b.r2_assert()
             b.r3_panic_closure()
             b.r1_ref_patterns()
+            b.flush()
             hints = 0
         new_body = b.apply()
         start = sum(len(x) for x in out)
@@ -335,8 +341,10 @@ class Unit:
         return None, None
 
 
-def run_verus(path, rlimit=None, seed=None, timeout=900):
+def run_verus(path, rlimit=None, seed=None, timeout=1800, only_twins=False):
     cmd = ['verus', path, '--output-json', '--time', '--triggers-mode', 'silent', '--multiple-errors', '20']
+    if only_twins:
+        cmd += ['--verify-root', '--verify-function', '*vacuity_twin_*']
     if rlimit:
         cmd += ['--rlimit', str(rlimit)]
     if seed is not None:
